@@ -60,10 +60,13 @@
 //   clr a                       a.clear()
 //   del a                       delete a
 //   w a i v                     element i (canonical order) of a := v, through operator()
+//   failnext k                  fault schedule: the k-th next DATA allocation of the library (internal::alloc_aligned: operator
+//                               new[] for int, posix_memalign for double, both interposed below) fails once with
+//                               std::bad_alloc; the operation that runs into it answers `exc:bad_alloc`
 //   end                         clear the std::vectors, delete every live array (ascending handle)
 // make/byval_resize use extents (n) for v, a, s, t and (n, 2) for m.
 // One observation line per op:
-//   <status> | n=<n_storage_objects() since reset> g=<n_gradients_registered()> | <k>(K=<kind> st=S# nl=# sz=<n_allocated()> at=<alloc>+<off>
+//   <status> | n=<n_storage_objects() since reset> g=<n_gradients_registered()> f=<fault countdown> | <k>(K=<kind> st=S# nl=# sz=<n_allocated()> at=<alloc>+<off>
 //        L=<0/1> len=<d0[xd1]> str=<s0[xs1]> [gi=#] [v=..]) ... | X<id>:<live>:<values> ...
 // Canonical element order: vector by index, matrix row by row, symmetric matrix its stored (lower) triangle row by
 // row, tridiagonal matrix its band row by row.  gi = gradient_index() - storage()->gradient_index() of an active array.
@@ -75,6 +78,39 @@
 #include <algorithm>
 #include <type_traits>
 #include <sanitizer/asan_interface.h>
+#include <new>
+#include <cstdlib>
+#include <cerrno>
+#include <malloc.h>
+
+// ---- fault injection: the two allocation functions internal::alloc_aligned calls in this build are interposed.
+// Only allocations made while a library operation runs (g_in_op) and small enough to be array data (the Stack's own
+// buffers are megabytes and allocated before) consult the schedule.
+static long g_fail = 0;            // countdown: the g_fail-th next data allocation fails (0: none)
+static bool g_in_op = false;
+static long g_fired = 0, g_data_allocs = 0;
+static bool fault_now(size_t bytes) {
+  if (!g_in_op || bytes > 8192) return false;
+  ++g_data_allocs;
+  if (g_fail > 0 && --g_fail == 0) { ++g_fired; return true; }
+  return false;
+}
+void* operator new[](std::size_t sz) {
+  if (fault_now(sz)) throw std::bad_alloc();
+  void* p = std::malloc(sz ? sz : 1);
+  if (!p) throw std::bad_alloc();
+  return p;
+}
+void operator delete[](void* p) noexcept { std::free(p); }
+void operator delete[](void* p, std::size_t) noexcept { std::free(p); }
+extern "C" int posix_memalign(void** out, size_t alignment, size_t size) {
+  if (fault_now(size)) return ENOMEM;
+  void* p = memalign(alignment, size ? size : 1);
+  if (!p) return ENOMEM;
+  *out = p;
+  return 0;
+}
+
 using namespace adept;
 #define NOINLINE __attribute__((noinline))
 typedef Array<1, int, false> IV;
@@ -301,7 +337,7 @@ template <class A> static void describe(std::ostream& os, long k, A* o) {
 static std::string observe(const std::string& status) {
   discover();
   std::ostringstream os;
-  os << status << " | n=" << (n_storage_objects() - baseline) << " g=" << ((long)the_stack->n_gradients_registered() - baseline_g) << " |";
+  os << status << " | n=" << (n_storage_objects() - baseline) << " g=" << ((long)the_stack->n_gradients_registered() - baseline_g) << " f=" << g_fail << " |";
   std::map<long, Slot> m = all_objects();
   for (std::map<long, Slot>::iterator it = m.begin(); it != m.end(); ++it)
     DISPATCH(it->second.kind, describe(os, it->first, static_cast<A*>(it->second.p)));
@@ -328,7 +364,7 @@ static void free_all() {
   clear_bags();
   delete_pool();
   for (std::map<long, Ext>::iterator it = exts.begin(); it != exts.end(); ++it) {
-    if (it->second.fixed) delete it->second.fixed; else delete[] it->second.base;
+    if (it->second.fixed) delete it->second.fixed; else std::free(it->second.base);
   }
   exts.clear();
   stos.clear();
@@ -344,7 +380,8 @@ template <class A> static void add(long k, A* o) { Slot s; s.kind = Tr<A>::kind;
 // data of an operand that is going to be read or written must be addressable (a stale soft link is the user's fault)
 template <class A> static bool usable_t(A* o) {
   Geo g = Tr<A>::geo(*o);
-  if (!o->data() || rel_cells(Tr<A>::kind, g).empty()) return true;
+  if (rel_cells(Tr<A>::kind, g).empty()) return true;
+  if (!o->data()) return false;              // extents without data: what a failed allocation leaves of an empty array
   std::string where; bool live, phys;
   locate(reinterpret_cast<const char*>(o->data()), false, where, live, phys);
   return phys && g.s0 >= 0 && g.s1 >= 0 && !region_bad(o->data(), extent_of(Tr<A>::kind, g) * sizeof(typename Tr<A>::T));
@@ -368,6 +405,12 @@ static bool view_ok(const Slot& b, const Req& r) {
   Geo g = geo_of(b);
   const long* a = r.a;
   if (g.d0 == 0 || (b.kind == KM && g.d1 == 0)) return false;
+  bool nodata = false;
+  DISPATCH(b.kind, nodata = static_cast<A*>(b.p)->data() == 0);
+  if (nodata) return false;                 // extents without data (left by a failed allocation): nothing to view
+  bool nosto = false;
+  DISPATCH(b.kind, nosto = static_cast<A*>(b.p)->storage() == 0);
+  if (nosto && !usable(b)) return false;    // an uncounted view (soft link, stale) whose data are not all there: user error
   switch (r.fn) {
     case SL: return (b.kind == KV || b.kind == KA) && range_ok(g.d0, a[0], a[1], a[2]);
     case ROW: return b.kind == KM && a[0] >= 0 && a[0] < g.d0 && range_ok(g.d1, a[1], a[2], a[3]);
@@ -485,18 +528,20 @@ int main() {
     size_t na = w.size() - 1;
     std::string status = "ok";
     if (!nums) { std::cout << "bad-op\n"; continue; }
-#define BAD { std::cout << "bad-op\n"; continue; }
-#define SKIP { std::cout << "skip-dangling\n"; continue; }
+#define BAD { g_in_op = false; std::cout << "bad-op\n"; continue; }
+#define SKIP { g_in_op = false; std::cout << "skip-dangling\n"; continue; }
     try {
       Slot x, b, b2;
+      g_in_op = true;
       if (c == "reset" && na == 0) {
+        g_in_op = false; g_fail = 0;
         free_all(); stack.new_recording();
         baseline = n_storage_objects(); baseline_g = (long)stack.n_gradients_registered();
         std::cout << "reset\n"; continue;
       }
       else if (c == "xnew" && na == 3) {
         if (a[1] < 0 || exts.count(a[1]) || a[2] < 1 || a[2] > 16) BAD
-        Ext e; e.n = a[2]; e.base = new int[e.n]; e.live = true; e.fixed = 0;
+        Ext e; e.n = a[2]; e.base = static_cast<int*>(std::malloc(e.n * sizeof(int))); e.live = true; e.fixed = 0;
         for (long i = 0; i < e.n; ++i) e.base[i] = (int)(a[3] + i);
         exts[a[1]] = e;
       } else if (c == "fnew" && na == 2) {
@@ -592,6 +637,9 @@ int main() {
         int kd = inbag[a[1]].first;
         if (bagh[kd].empty() || bagh[kd].back() != a[1]) BAD
         DISPATCH(kd, op_vpop<A>(a[1]));
+      } else if (c == "failnext" && na == 1) {
+        if (a[1] < 0 || a[1] > 6) BAD
+        g_fail = a[1];
       } else if (c == "end" && na == 0) {
         clear_bags();
         delete_pool();
@@ -654,13 +702,15 @@ int main() {
         }
       }
     }
-    catch (const BadOp&) { std::cout << "bad-op\n"; continue; }
+    catch (const BadOp&) { g_in_op = false; std::cout << "bad-op\n"; continue; }
+    catch (const std::bad_alloc&) { status = "exc:bad_alloc"; }
     catch (const empty_array&) { status = "exc:empty_array"; }
     catch (const size_mismatch&) { status = "exc:size_mismatch"; }
     catch (const invalid_dimension&) { status = "exc:invalid_dimension"; }
     catch (const invalid_operation&) { status = "exc:invalid_operation"; }
     catch (const index_out_of_bounds&) { status = "exc:index_out_of_bounds"; }
     catch (const adept::exception&) { status = "exc:other"; }
+    g_in_op = false;
     std::cout << observe(status) << "\n";
   }
   free_all();
